@@ -693,23 +693,48 @@ def c17(tier):
     def take(gen, pat, limit=None):
         got = [o for o in gen(tier) if re.search(pat, o["id"])]
         picks.extend(got[:limit] if limit else got)
-    n = "n3" if tier == "quick" else "n[34]"
-    take(c01, r"/dir/int/%s/.*/(core|neigh|edges|matrix|indegs)$" % n)
-    take(c02, r"/und/int/%s/.*/(core|neigh|degree|matrix)$" % n)
-    take(c02, r"/und/int/n2/anystate/edges$")
-    take(c03, r"/(dir|und)/(string|struct)/n3/(addEdge|removeEdge|setEdgeLabel|readd-rm2)/core$")
-    take(c04, r"/(dmg|umg)/n3/[^/]*/(core|degree|degrees|matrix|indeg)$")
-    take(c04, r"wide")
-    take(c05, r"/(dwg|uwg)/n3/[^/]*/(core|wmatrix)$")
-    take(c16_simple, r"/(dir|und)/int/")
-    take(c16_mg, r".")
-    take(c16_wg, r"/(core|neigh)$")
-    take(c06, r"/(dir-int|und-int|dmg|uwg)/n3-3/(eq|copyctor-indep)$")
-    take(c08, r"/(traversal|step|begin|vertices)$")
-    take(c09, r"/n[023]")
-    take(c10, r"/n2")
-    take(c11, r"/n3/")
-    take(c12, r".")
+    if tier == "quick":
+        take(c01, r"/dir/int/n3/.*/(core|neigh|edges|matrix)$")
+        take(c02, r"/und/int/n3/.*/(core|neigh|degree)$")
+        take(c02, r"/und/int/n2/anystate/edges$")
+        take(c03, r"/(dir|und)/(string|struct)/n3/(addEdge|removeEdge|setEdgeLabel|readd-rm2)/core$")
+        take(c04, r"/(dmg|umg)/n3/[^/]*/(core|degree|matrix)$")
+        take(c04, r"wide/(setEdgeMultiplicity|removeMultiedge)")
+        take(c05, r"/(dwg|uwg)/n3/[^/]*/(core|wmatrix)$")
+        take(c16_simple, r"/(dir|und)/int/.*/core$")
+        take(c16_mg, r"/core$")
+        take(c16_wg, r"/core$")
+        take(c06, r"/(dir-int|umg)/n3-3/(eq|copyctor-indep)$")
+        take(c08, r"/(traversal|step|begin|vertices)$")
+        take(c09, r"/n[02]$|ctor-.*-list$")
+        take(c10, r"/n2-S[0-9empty]*$")
+        take(c11, r"/n3/(findVertexPredecessors|findGeodesics|findGeodesicsFromVertex|findPathToVertexFromPredecessors)$|/n2/findAll")
+        take(c12, r"n2-e|n3-e.*-s0$")
+        take(c13, r"tokeniser|loadTextEdgeList-dir-2lines$|writeTextEdgeList-dir")
+        take(c14, r"/dir/(int|double|nolabel)/")
+        take(c15_bin, r"/dir/(int|u8)/")
+    else:
+        n = "n[34]"
+        take(c01, r"/dir/int/%s/.*/(core|neigh|edges|matrix|indegs)$" % n)
+        take(c02, r"/und/int/%s/.*/(core|neigh|degree|matrix)$" % n)
+        take(c02, r"/und/int/n2/anystate/edges$")
+        take(c03, r"/(dir|und)/(string|struct)/n3/")
+        take(c04, r"/(dmg|umg)/n3/")
+        take(c04, r"wide")
+        take(c05, r"/(dwg|uwg)/n3/[^/]*/(core|wmatrix|total)")
+        take(c16_simple, r".")
+        take(c16_mg, r".")
+        take(c16_wg, r".")
+        take(c06, r"/n3-3/")
+        take(c08, r".")
+        take(c09, r".")
+        take(c10, r"/n[23]-S[0-9empty]*$")
+        take(c11, r"/n3/")
+        take(c12, r".")
+        take(c13, r".")
+        take(c14, r".")
+        take(c15_bin, r".")
+        take(c15_txt, r".")
     out = []
     for o in picks:
         o = dict(o)
